@@ -165,7 +165,7 @@ def run(ctx, rep):
         conds = Q.dominating_conditions(g, n, domb)
         isproxy = any(pol and A.find_calls(t.ast, "isinstance") and "BaseNetref" in A.src(t.ast) for t, pol in conds)
         mine = any(pol and isinstance(t.ast, ast.Compare) and isinstance(t.ast.ops[0], ast.Is) and
-                   A.src(t.ast.left) == "%s.____conn__" % obj and A.src(t.ast.comparators[0]) == "self" for t, pol in conds)
+                   {A.src(t.ast.left), A.src(t.ast.comparators[0])} == {"%s.____conn__" % obj, "self"} for t, pol in conds)
         sends = A.src(n.ast.value.elts[1]) == "%s.____id_pack__" % obj
         rep.ob("R03.3", "_box: a proxy is sent back as LOCAL_REF only to the connection that owns its target", isproxy and mine,
                "guards: isinstance(obj, BaseNetref) and obj.____conn__ is self" if isproxy and mine else
